@@ -3307,6 +3307,7 @@ static Token *function(Token *tok, Type *basety, VarAttr *attr) {
   fn->locals = locals;
   leave_scope();
   resolve_goto_labels();
+  current_fn = NULL;
   return tok;
 }
 
